@@ -643,6 +643,14 @@ class Gen:
       if not cur: cmin = rk
       cur.append((p, srcs))
     if cur: blocks.append(cur)
+    if comb_targets and rng.random() < k.get("falseloop", 0):
+      # FALSE LOOPS (C11): group targets regardless of rank -> block graph cyclic, bit-level dataflow still acyclic;
+      # inside a block statements stay in rank order
+      ng = rng.randrange(1, max(2, len(comb_targets) // 2 + 1))
+      groups = [[] for _ in range(ng)]
+      for (rk, p, srcs) in comb_targets:
+        groups[rng.randrange(ng)].append((p, srcs))
+      blocks = [g for g in groups if g]
     for bi, tg in enumerate(blocks):
       stmts = []
       for (p, srcs) in tg:
